@@ -378,12 +378,13 @@ def classify(case, impl, failure):
 TECHNIQUE = ("Coq proofs about a token-level model of the printer, the syntax checker and the scanner "
              "(structural induction over the value list, per-token lemmas) + differential "
              "correspondence against the real functions under ASan/UBSan")
-LEVEL_TEXT = ("Partial. Proved for all option records and unbounded lists of int32, int64, chars, true/false/nil/inf, "
-              "strings and quoted symbols (every escape, every string split, every line break): returned count = text "
-              "length, checker count = number of values, scanner consumes the whole text and returns the values "
-              "(C10_roundtrip_partial, C10_linebreak_transparent, C10_decimal_roundtrip; witnesses C10_roundtrip_refuted_D7/D8/D10 "
-              "against the pre-fix functions). Plain symbols, colours, MIDI, blobs, floats and doubles are in the model and "
-              "in the correspondence run but not in the theorem; ranges, arrays, time tags and messages are checked on the "
-              "implementation by the round-trip oracle only.")
+LEVEL_TEXT = ("Partial. Model: printer (all scalar types, range conversion with threshold 5, N x value and a b ... c "
+              "forms, arrays, messages), checker and scanner (incl. ellipsis handling, arrays, messages); time tags are not "
+              "modelled. Proved for all option records with compression off and unbounded lists of int32, int64, chars, "
+              "true/false/nil/inf, strings and quoted symbols: length, checker count, whole text consumed, values "
+              "(C10_roundtrip_partial, C10_print_total, C10_linebreak_transparent, C10_message_partial); the range conversion "
+              "expands to the values it replaces (C10_range_expand: step runs of i/h/c with wrap-around, constant runs of "
+              "every non-float scalar); both recognisers read NxV repetitions back (C10_repetition_reads_partial). The "
+              "model/implementation stream runs with compression on, arrays and messages.")
 LEVEL_NOTE = ("Trusted: Coq kernel, extraction, OCaml driver (incl. its libc oracle for decimal float literals), harness, "
               "generators. FloatFmt.v (printf %f/%a, hex literal value) is concrete but unproved. See notes/C10.md.")
